@@ -117,6 +117,12 @@ func repProfile(p *sx.Program, sk *Skeleton, profile string) *Skeleton {
 		// 64-bit integer kinds over their whole range, restricted to values that are exactly a float64
 		tm.NumReps = []int{sx.RepFloat64, sx.RepInt64, sx.RepUint64, sx.RepUint, sx.RepUintptr}
 		tm.IntExactFloat = true
+	case "jnspell":
+		// typed containers of json.Number whose members may spell equal numbers differently (1, 1.0, 1.00)
+		tm.NumReps = []int{sx.RepFloat64, sx.RepJSONNumber}
+		tm.IntAbsLimit = new(big.Int).Lsh(big.NewInt(1), 40)
+		tm.ContainerReps = true
+		tm.RootTyped = true
 	case "ptrcontainers":
 		// typed containers whose element type is T or *T, or a Go array [n]any
 		tm.NumReps = []int{sx.RepFloat64, sx.RepInt}
@@ -152,9 +158,12 @@ func checkC08(cc *CheckCtx, r *Report) {
 		if sk.Family == "F-single" && kind != "scalar" {
 			skels = append(skels, repProfile(cc.P, sk, "ptrcontainers"))
 		}
+		if sk.Family == "F-single" && (strings.Contains(sk.Name, "unique") || strings.Contains(sk.Name, "contains") || strings.Contains(sk.Name, "items")) {
+			skels = append(skels, repProfile(cc.P, sk, "jnspell"))
+		}
 	}
 	r.Bounds = append(r.Bounds, boundsValidate...)
-	r.Bounds = append(r.Bounds, "representation profiles: numeric (all 14 numeric kinds incl. float32 and json.Number, containers canonical), containers (typed slices/maps, Go arrays, named string and named key types; numbers float64|int), wrappers (one pointer layer at top level and in interface slots); bigint (F-single scalar keywords: int64/uint64/uint/uintptr over their whole range, restricted to values that are exactly a float64), ptrcontainers (F-single container keywords: the root is a typed slice/map whose element type is T, *T or a Go array [n]any); otherwise integer-kind and json.Number values bounded by |v| <= 2^53 and json.Number texts integral, where the exact value equals the canonical float64 decoding")
+	r.Bounds = append(r.Bounds, "representation profiles: numeric (all 14 numeric kinds incl. float32 and json.Number, containers canonical), containers (typed slices/maps, Go arrays, named string and named key types; numbers float64|int), wrappers (one pointer layer at top level and in interface slots); bigint (F-single scalar keywords: int64/uint64/uint/uintptr over their whole range, restricted to values that are exactly a float64), ptrcontainers (F-single container keywords: the root is a typed slice/map whose element type is T, *T or a Go array [n]any), jnspell (array keywords: typed containers of json.Number n/10^k, k <= 3, |n| <= 2^40, so that equal numbers can be spelled differently); otherwise integer-kind and json.Number values bounded by |v| <= 2^53 and json.Number texts integral, where the exact value equals the canonical float64 decoding")
 	r.Outside = append(r.Outside, "nil slices, nil maps and struct instances (the property's own exclusions); integers beyond 2^53 and json.Number texts that are not exactly a float64 (canonical decoding rounds them; decimal-to-binary rounding is not modelled)")
 	cc.RunValidateFamily(r, skels, VOptions{ValidatePaths: true})
 }
@@ -525,7 +534,7 @@ func init() {
 			for i, s := range results {
 				r.AddSkel(ds[i], s)
 			}
-			r.Bounds = append(r.Bounds, "Resolve determinism: 10 concrete documents with (duplicate) $id, anchors, dynamic anchors and pointer references; the real Resolve runs in the engine and every map range forks over all permutations of its keys (maps of <= 4 keys); each path's rendering of bases/URIs/reference targets/anchors must equal the native one (exhaustive over iteration orders; no symbolic data, so this part is exploration rather than an SMT verdict)")
+			r.Bounds = append(r.Bounds, "Resolve determinism: 13 concrete documents with (duplicate) $id, anchors, dynamic anchors, pointer references and loader-supplied diamonds of documents in mixed drafts; the real Resolve runs in the engine and every map range forks over all permutations of its keys (maps of <= 4 keys; larger maps: every rotation in both directions); each path's rendering of bases/URIs/reference targets/anchors must equal the native one (exhaustive over iteration orders; no symbolic data, so this part is exploration rather than an SMT verdict)")
 		}
 		// (e) Marshal leaves PropertyOrder (and the memory behind it) alone, for every order list and property set
 		{
